@@ -30,6 +30,7 @@ namespace pika::detail {
     {
         PIKA_ASSERT_OWNS_LOCK(l);
 
+        PIKA_VERIF_POINT("sem.wait.enter", this, value_, count);
         while (value_ < count) { cond_.wait(l, "counting_semaphore::wait"); }
         value_ -= count;
     }
@@ -86,6 +87,7 @@ namespace pika::detail {
 
         // release no more threads than we get resources
         value_ += count;
+        PIKA_VERIF_POINT("sem.signal.added", this, value_, count);
         for (std::int64_t i = 0; value_ >= 0 && i < count; ++i)
         {
             // notify_one() returns false if no more threads are
